@@ -470,16 +470,23 @@ func (c *costClient) measure(entry string, b []byte) costMeasure {
 	if c09BudgetSpent() {
 		return costMeasure{N: len(b), Skipped: true, Hang: true}
 	}
-	// watchdog: 5 s for small inputs (they decode in milliseconds), up to 20 s
+	// watchdog: 20 s for small inputs (they decode in milliseconds), up to 60 s
 	// for a full-size datagram (the dearest legitimate input needs ~2 s of wall
-	// time for decode + re-encode when several probes run side by side)
+	// time for decode + re-encode when several probes run side by side; the
+	// margin is for a loaded machine - the verdict that matters is CPU time)
 	timeout := c.Timeout
 	if timeout == 0 {
 		timeout = 20*time.Second + time.Duration(len(b))*40*time.Second/c09MaxUDP
 	}
 	if c.cmd == nil {
-		if err := c.start(); err != nil {
-			return costMeasure{N: len(b), Died: "cannot start probe: " + err.Error()}
+		err := c.start()
+		for try := 0; err != nil && try < 3; try++ {
+			// fork/memory pressure of the machine is not a property of the input
+			time.Sleep(2 * time.Second)
+			err = c.start()
+		}
+		if err != nil {
+			return costMeasure{N: len(b), Skipped: true, Hang: true}
 		}
 	}
 	if _, err := io.WriteString(c.stdin, entry+" "+hx(b)+"\n"); err != nil {
